@@ -105,7 +105,7 @@ class SemiHistory(Leg):
                 elif r < 0.84:
                     ops.append(["CHK", ci, ai])
                 elif r < 0.93:
-                    ops.append(["ALL", ci])
+                    ops.append([rng.choice(["ALL", "ALL", "ALLP"]), ci])
                 else:
                     ops.append(["CLR", ci])
             yield {"metas": metas, "classes": classes, "ops": ops}
@@ -115,6 +115,7 @@ class SemiHistory(Leg):
         metas, classes = build(case)
         results = {}
         obs = []
+        pending = []
 
         def inst_obs(x):
             log = [[classes.index(t) if t in classes else -1, self._ai(a, k)] for (t, a, k) in getattr(x, "_vlog", [])]
@@ -151,6 +152,18 @@ class SemiHistory(Leg):
                 elif op[0] == "ALL":
                     r = list(singleton.get_all_semi_singleton_instances(classes[op[1]]))
                     obs.append(["list", [getattr(x, "_vid", -1) for x in r]])
+                elif op[0] == "ALLP":
+                    # the enumeration is started, suspended after its first item while the NEXT call of the history runs, and
+                    # resumed afterwards: it reports the mappings that were live when it started
+                    g = singleton.get_all_semi_singleton_instances(classes[op[1]])
+                    got = []
+                    try:
+                        got.append(next(g))
+                    except StopIteration:
+                        g = None
+                    pending.append((len(obs), g, got))
+                    obs.append(None)
+                    continue
                 elif op[0] == "CLR":
                     r = singleton.clear_semi_singleton(classes[op[1]])
                     obs.append(["none"] if r is None else ["other"])
@@ -158,7 +171,20 @@ class SemiHistory(Leg):
                 obs.append(["keyerror"])
             except Exception as e:  # noqa: BLE001
                 obs.append(["raise", type(e).__name__])
+            self._resume(pending, obs)
+        self._resume(pending, obs)
         return obs
+
+    @staticmethod
+    def _resume(pending, obs):
+        while pending:
+            at, g, got = pending.pop()
+            try:
+                if g is not None:
+                    got += list(g)
+                obs[at] = ["list", [getattr(x, "_vid", -1) for x in got]]
+            except Exception as e:  # noqa: BLE001
+                obs[at] = ["raise", type(e).__name__]
 
     @staticmethod
     def _ai(a, k):
@@ -193,7 +219,7 @@ class SemiHistory(Leg):
                 mops.append(f"SDrop {op[1]} {key}")
             elif op[0] == "CHK":
                 mops.append(f"SCheck {op[1]} {key}")
-            elif op[0] == "ALL":
+            elif op[0] in ("ALL", "ALLP"):
                 mops.append(f"SGetAll {op[1]}")
             else:
                 mops.append(f"SClear {op[1]}")
@@ -282,7 +308,7 @@ class SemiHistory(Leg):
                 exp = ["inst", live[key]] if key in live else ["none"]
                 if o[:2] != exp:
                     return [f"call {j} {op} (args {ARGS[op[2]]}): check reports {o[:2]}, live mapping is {exp}"]
-            elif op[0] == "ALL":
+            elif op[0] in ("ALL", "ALLP"):
                 exp = sorted(i for (c, k), i in live.items() if c == op[1])
                 if o[0] != "list" or sorted(o[1]) != exp:
                     return [f"call {j} {op}: get_all reports {o}, live instances of class {op[1]} are {exp}"]
